@@ -1524,6 +1524,8 @@ bintShiftRem(BInt b, int n)
 	int  i, top;
 	/* Returns lowest `n' bits from b. */
 	
+	if (n <= 0) return IntToBInt(int0);
+
 	if (IsImmed(b)) {
 		IInt x = BIntToInt(b);
 		/* The mask must be as wide as the immediate value. */
@@ -1531,11 +1533,22 @@ bintShiftRem(BInt b, int n)
 		return IntToBInt(x & (IInt) ((((UIInt) 1) << n) - 1));
 	}
 
+	/* An operand of fewer than `n' bits has no more places to give. */
+	if (n > (int) (BINT_LG_RADIX * Placec(b)))
+		n = BINT_LG_RADIX * Placec(b);
+
 	r = bintAlloc(n);
 	
 	for (i=0; i<Placea(r) - 1; i++) Placev(r)[i] = Placev(b)[i];
 	top = n - BINT_LG_RADIX*(Placec(r) - 1);
-	Placev(r)[i] = Placev(b)[i] & ((1<< top) - 1);
+	/* The top place is taken whole when `n' ends on a place boundary. */
+	if (top < (int) BINT_LG_RADIX)
+		Placev(r)[i] = Placev(b)[i] & ((1<< top) - 1);
+	else
+		Placev(r)[i] = Placev(b)[i];
+
+	/* Set place count to not see leading zeros. */
+	while (Placec(r) > 0 && Placev(r)[Placec(r)-1] == 0) Placec(r)--;
 
 	return xintImmedIfCan(r);
 }
